@@ -1,7 +1,7 @@
 from common import Rng
 
 CONFIG = dict(
-    claimed=False, na_reason="proofs in progress",
+    claimed=True,
     level_text="Kernel-checked Lean theorems over ALL histories of the restarting-speaker model (RestartingDeferral + the "
                "per-family RIB deferral flag + the glue that couples them): the C11 reference checker accepts every model run; "
                "while a family is deferred no change for it is emitted by any RIB mutator; a family is released exactly at the "
@@ -16,17 +16,36 @@ CONFIG = dict(
                "(~25 lines, private to crate::event). Modelled, not verified: tokio timer task / abort handle, the R-bit "
                "derived from selection_deferral.is_some(), route ranking inside a destination (C02).",
     lean_modules=["Rbgp.Gr.Restarting.Props"],
-    theorems=[],
+    theorems=[
+        "Rbgp.Gr.Restarting.Props.check_run_ok",
+        "Rbgp.Gr.Restarting.Props.rel_after",
+        "Rbgp.Gr.Restarting.Props.deferring_silent",
+        "Rbgp.Gr.Restarting.Props.deferring_silent_step",
+        "Rbgp.Gr.Restarting.Props.family_complete_iff",
+        "Rbgp.Gr.Restarting.Props.release_clears_flag",
+        "Rbgp.Gr.Restarting.Props.timer_ends_all",
+        "Rbgp.Gr.Restarting.Props.timer_clears_everything",
+        "Rbgp.Gr.Restarting.Props.release_exactly_held",
+        "Rbgp.Gr.Restarting.Props.announce_once",
+        "Rbgp.Gr.Restarting.Props.nongr_never_blocks",
+        "Rbgp.Gr.Restarting.Props.pending_keys_shrink",
+        "Rbgp.Gr.Restarting.Props.initial_pending_configured",
+        "Rbgp.Gr.Restarting.Props.no_stuck_deferring",
+        "Rbgp.Gr.Restarting.Props.completes_iff_pending_empty",
+        "Rbgp.Gr.Restarting.Props.each_family_released_once",
+    ],
     harness=dict(kind="daemon", test="gr::verif_gr::verif_main"),
     profiles=["debug"],
-    n_quick=3000, n_thorough=60000, shards=12,
+    n_quick=2500, n_thorough=40000, shards=12,
     nontrivial_re=r"\(complete |\(end ",
     rule="histories over <= 4 peer addresses (3 configurable helpers + 1 stranger) x 3 families x 4 prefixes: "
          "peer-established with any GR family subset (empty = no GR), End-of-RIB, peer-withdrawn, timer-expired, interleaved "
          "with route insertions / withdrawals / per-peer family drops into the (deferred) tables; mostly-sane stream (EOR "
-         "only from established GR peers, timer only once started) + an unconstrained stream; thorough tier adds the "
-         "exhaustive enumeration of all machine-event sequences up to length 5 over 2 helpers x 2 families and random "
-         "extension to length 8; non-trivial = some family was released; distinct = distinct case line",
+         "only from established GR peers, timer only once started) + an unconstrained stream; plus, computed by BFS in the "
+         "model: every reachable machine state x every input (configured peers + a stranger, every family subset), each "
+         "state driven along a shortest path with routes inserted before (quick: 2 helpers x 2 configured families = 703 "
+         "cases; thorough: 3 helpers x 3 families, three more configurations, and random extensions of the shortest "
+         "paths); non-trivial = some family was released; distinct = distinct case line",
     expect_tokens=["(complete 0)", "(complete 1)", "(complete 2)", "(end ())", "(end (", "awaiting", "deferring", "completed",
                    "absent", "(timer (some", "(timer none)", "(defer ("],
     trusted_base=["model Rbgp/Gr/Restarting/Model.lean of daemon/src/gr.rs RestartingDeferral + Rib.deferring coupling",
@@ -73,7 +92,7 @@ def gen_case(r, sane):
     for _ in range(n):
         k = r.weighted([("est", 6), ("eor", 8), ("wd", 3), ("timer", 1), ("ins", 7), ("rm", 2), ("drop", 1)])
         if k == "est":
-            p = r.below(NP)
+            p = r.pick(list(cfgd.keys())) if (cfgd and r.chance(3, 4)) else r.below(NP)
             base = cfgd.get(p, [])
             w = r.below(10)
             if w < 5:
@@ -119,43 +138,36 @@ def gen_case(r, sane):
     return "(case (peers%s) (dur %s) (evs%s))" % ((" " + ps) if ps else "", dur, (" " + " ".join(evs)) if evs else "")
 
 
-def exhaustive(maxlen):
-    """all machine-event sequences up to maxlen over 2 helpers x 2 families (each helper configured for both)"""
-    alphabet = []
-    for p in (0, 1):
-        for fs in ([], [0], [1], [0, 1]):
-            alphabet.append("(est %d %s)" % (p, fams_str(fs)))
-        for f in (0, 1):
-            alphabet.append("(eor %d %d)" % (p, f))
-        alphabet.append("(wd %d)" % p)
-    alphabet.append("timer")
-    out = []
-    def rec(prefix):
-        if prefix:
-            # a route per family first, so that releases are visible
-            out.append("(case (peers (0 (0 1)) (1 (0 1))) (dur (some 360)) (evs (ins 0 0 0) (ins 1 1 1) %s))" % " ".join(prefix))
-        if len(prefix) == maxlen:
-            return
-        for a in alphabet:
-            rec(prefix + [a])
-    rec([])
-    return out
+def bfs_cases(peers, dur, pre, post):
+    """every reachable state of the MODEL machine for this configuration x every input (peers of the
+    configuration + one stranger, every family subset), each state reached along a shortest path; computed
+    by the Lean driver (`drv_c11 bfs`) from the model itself."""
+    import subprocess, os
+    drv = os.path.join(os.path.dirname(os.path.dirname(os.path.abspath(__file__))), "lean", ".lake", "build", "bin", "drv_c11")
+    ps = " ".join("(%d %s)" % (p, fams_str(fs)) for p, fs in peers)
+    line = "(bfs (peers %s) (dur %s) (pre %s) (post %s))" % (ps, dur, " ".join(pre), " ".join(post))
+    out = subprocess.run([drv, "bfs"], input=line + "\n", stdout=subprocess.PIPE, text=True, timeout=600).stdout
+    return [l for l in out.split("\n") if l.startswith("(case")]
 
 
 def gen(seed, n, tier):
     r = Rng(seed * 1000003 + 11)
     cases = []
+    routes = ["(ins 0 0 0)", "(ins 1 1 1)", "(ins 2 2 2)", "(ins 1 0 0)"]
     if tier == "thorough":
-        ex = exhaustive(4)
-        cases += ex
-        # random extension of random exhaustive prefixes to length 8
-        for _ in range(n // 4):
+        cases += bfs_cases([(0, [0, 1, 2]), (1, [0, 1, 2]), (2, [0, 1, 2])], "(some 360)", routes, ["(ins 0 1 3)"])
+        cases += bfs_cases([(0, [0, 1]), (1, [1, 2]), (2, [2])], "none", routes, [])
+        cases += bfs_cases([(0, [0]), (1, [0]), (2, [0])], "(some 1)", routes[:1], ["(rm 0 0 0)"])
+        ex = bfs_cases([(0, [0, 1]), (1, [0, 1])], "(some 360)", routes[:2], [])
+        # random extension of shortest-path prefixes to longer histories
+        for _ in range(n // 3):
             base = r.pick(ex)
             extra = gen_case(r, True)
             evs = extra[extra.index("(evs") + 4:-2].strip()
             cases.append(base[:-2] + (" " + evs if evs else "") + "))")
     else:
-        cases += exhaustive(2)
-    while len(cases) < n:
+        cases += bfs_cases([(0, [0, 1]), (1, [0, 1])], "(some 360)", routes[:2], ["(ins 0 0 2)"])
+    target = len(cases) + n
+    while len(cases) < target:
         cases.append(gen_case(r, sane=r.chance(4, 5)))
     return cases
